@@ -14,7 +14,7 @@ import (
 func gen(r *h.Rand, tier string, emit func([]string)) {
 	n := 160
 	if tier == "thorough" {
-		n = 2000
+		n = 1500
 	}
 	points := []string{"fields.tmpWritten", "fields.renamed", "fields.renamed", "fields.idxRemoved"}
 	for c := 0; c < n; c++ {
